@@ -203,6 +203,11 @@ def h_rewrite(ctx, kind, tagged, codes, npay=2):
     ctx.check('egress port', p == ep)
     ctx.check('emitted length', len(got) == len(eb))
     if len(got) == len(eb): ctx.check('emitted bytes == reference edit of the frame', ctx.Eq(got, env.tobytes(ctx, eb)))
+  for p in (1, 2, 3, 4):
+    st = sw.port_stats[p]
+    mine = [eb for ep, eb in expect if bool(ep == p)]
+    ctx.check('tx counters equal the frames and bytes actually transmitted',
+              ctx.And(st.tx_packets == len(mine), st.tx_bytes == sum(len(eb) for eb in mine)))
   ctx.witness('done')
 
 
